@@ -296,6 +296,8 @@ fn eval_internal(mem: &mut Memory, mut expression: GcRef, mut env: GcRef, mut en
                                 // tail-call elimination: jump back to the beginning of this instance of `eval`
                                 // instead of calling itself recursively
                                 let new_env = pair_params_and_args(mem, &nf, name, &list_elems[1..])?;
+                                #[cfg(picilisp_verif)]
+                                verif_note_call(nf.get_body().is_nil());
                                 expression = nf.get_body();
                                 env = new_env;
                                 env_module = nf.get_env_module();
@@ -411,6 +413,8 @@ fn macroexpand_internal(mem: &mut Memory, expression: GcRef, env: GcRef, env_mod
                             },
                             Function::NormalFunction(nf) => {
                                 let new_env = pair_params_and_args(mem, &nf, name, &list_elems[1..])?;
+                                #[cfg(picilisp_verif)]
+                                verif_note_call(nf.get_body().is_nil());
                                 return eval_internal(mem, nf.get_body(), new_env, nf.get_env_module(), recursion_depth + 1);
                             },
                         }
